@@ -74,6 +74,14 @@ CHECKS = {
          "compared field by field with the reference model; the generator's planted sequences are compared with the specification constants.",
          "Windows explored at both ends only; TSC judged only for bursts with exactly one recognisable training sequence.",
          "DESIGN.md 2/C10", "world+enum"),
+ "C09": ("model_checking",
+         "exhaustive execution of the real clock worker under a virtual clock for all handler-duration x lateness scripts up to length L, with stop/start at every position; reference-clock oracle",
+         "Every script of length L (5 quick / 6 thorough) over 6 handler durations (below, at and above one frame) x 2 wake-up latenesses is run on the "
+         "real CLCKGen.start/_worker/send_clck_ind/stop; every handler invocation time, frame number and indication datagram is compared with a "
+         "reference clock in integer nanoseconds; repeated over start frames {0,1,2715646,2715647} x periods {1,2,51,102} x 0..2 links and with "
+         "stop()/start() arriving before, during and at the end of a wait after every script prefix.",
+         "Virtual time; worker body run synchronously (Event.wait is its only blocking point); frame period taken from the implementation within 1 us.",
+         "DESIGN.md 2/C09", "world"),
 }
 
 PENDING = {}
